@@ -719,6 +719,12 @@ class Tt4Card(SimBase):
                     self.cur = fid
                     return self._sw(0x9000)
             return self._sw(0x6A82)
+        if ins in (0xB0, 0xD6) and (p1 & 0x80):
+            # ISO/IEC 7816-4: with bit 8 of P1 set, bits 5-1 of P1 are a short
+            # EF identifier (0 = current file) and P2 is the offset
+            if p1 & 0x1F:
+                return self._sw(0x6A82)      # no file with that short identifier
+            p1 = 0
         if ins == 0xB0:
             if self.cur is None:
                 return self._sw(0x6985)
